@@ -6,6 +6,8 @@ names=${@:-$(ls seeded | grep '^C[0-9][0-9]-')}
 out=seeded/RESULTS_$tier.txt; : > $out.tmp
 for n in $names; do
   id=${n%%-*}
+  other=$(python3 -c "import json;print(json.load(open('seeded/$n/meta.json')).get('caught_by_other_check',''))" 2>/dev/null)
+  [ -n "$other" ] && id=$other
   line=$(./tools/try_mutant.sh seeded/$n/patch.diff $tier $id 2>&1 | grep -a "^CAUGHT\|^MISSED\|^INCONCLUSIVE\|patch does not apply\|not clean" | head -1 | cut -c1-260)
   echo "$n $line" | tee -a $out.tmp
 done
